@@ -363,18 +363,16 @@ Fixpoint instant_loop (fuel : nat) (instant : N) (msgs sent : list str) : list s
 Definition slice_to (s : str) (n : Z) : str :=
   if (n <? 0)%Z then firstn (Z.to_nat (Z.of_nat (length s) + n)) s else firstn (Z.to_nat n) s.
 
-(* reply()'s own idea of the recipient: target = _getTarget(to) = self.private and self.to or msg.args[0];
-   recipient = target if self.private or self.to or msg.channel else msg.nick *)
-Definition reserve_recipient (k : cfg) : str :=
-  let target := match c_private k, c_to k with true, Some t => t | _, _ => c_arg0 k end in
-  if c_private k || (match c_to k with Some _ => true | None => false end) || c_public k
-  then target else c_nick k.
+(* recipient = _makeReply(self, msg, 'x', **replyArgs).args[0]: reply() asks _makeReply *)
+Definition reserve_recipient (k : cfg) : str := real_target k.
 
 (* the room reply() computes when mores.length = 0 (byteLength of prefix, recipient and nick) *)
 Definition line_room (k : cfg) : Z :=
   (Z.of_N gen.T12.LINE_MAX - Z.of_N gen.T12.FIXED_OVERHEAD
    - Z.of_N (blen (c_prefix k)) - Z.of_N (blen (reserve_recipient k))
-   - (if c_prefixNick k then Z.of_N (blen (c_nick k)) + Z.of_N (slen gen.T12.NICK_SEP) else 0))%Z.
+   - (if c_prefixNick k
+      then Z.of_N (blen (match c_to k with Some t => t | None => c_nick k end)) + Z.of_N (slen gen.T12.NICK_SEP)
+      else 0))%Z.                                     (* byteLength(self.to or msg.nick) + len(': ') *)
 
 Definition allowed_length (k : cfg) : Z :=
   if c_length k =? 0 then line_room k else Z.of_N (c_length k).
